@@ -319,7 +319,7 @@ theorem run_stages {cap mc : Nat} (h24 : 24 ≤ cap) {Z : Bytes} {sc : List (Lis
           have := hl.ts.ans_le; have := hS0.2.2.2; omega, hl.segs.trans hsg'⟩
     obtain ⟨i, hi, hq⟩ := hq
     rcases hq with ⟨c', hh, hl, hw, hzt, hkp, hpk⟩ | ⟨c', hh, hl, hkp, hfin⟩
-    · have hpoll' := hh.poll (F := 100000) hN
+    · have hpoll' := hh.pollT hN
       have hw' : c'.env.tr.woken = false := hw.trans hwk
       obtain ⟨k1, k2, k3, k4⟩ := keep hl
       rw [runTask_succ, hpoll']
@@ -331,7 +331,7 @@ theorem run_stages {cap mc : Nat} (h24 : 24 ≤ cap) {Z : Bytes} {sc : List (Lis
       exact ⟨hkp.same rfl rfl ⟨rfl, rfl, rfl, rfl, rfl, rfl, [], by simp, Quiet.nil⟩, k1, k2, k3, k4,
         Or.inl ⟨rfl, ⟨F, hF, hps.cong rfl rfl ⟨rfl, rfl, rfl, rfl, rfl, rfl, [], by simp, Quiet.nil⟩, hph', hlg⟩,
           hpk.inp, hpk.em⟩⟩
-    · have hpoll' := hh.poll (F := 100000) hN
+    · have hpoll' := hh.pollT hN
       obtain ⟨k1, k2, k3, k4⟩ := keep hl
       exact ⟨c', "RET", by rw [runTask_succ, hpoll'], i, hi, hkp, k1, k2, k3, k4, Or.inr ⟨rfl, hfin⟩⟩
 
